@@ -26,6 +26,7 @@ type Job struct {
 	MaxPaths int            `json:"maxpaths,omitempty"`
 	Open     []string       `json:"open,omitempty"`
 	Timeout  int            `json:"timeout_ms,omitempty"`
+	Prio     int            `json:"-"`              // scheduled first when higher (long instances)
 	Prop     string         `json:"prop,omitempty"` // property being decided: assertions "Cnn.…" of other properties are not checked
 }
 
@@ -529,6 +530,7 @@ func checkMain(args []string) int {
 			jobs[i], jobs[k] = jobs[k], jobs[i]
 		}
 	}
+	sort.SliceStable(jobs, func(a, b int) bool { return jobs[a].Prio > jobs[b].Prio })
 	nw := runtime.NumCPU()
 	if s := os.Getenv("GOSYM_WORKERS"); s != "" {
 		nw, _ = strconv.Atoi(s)
